@@ -14,6 +14,10 @@ use crate::types::WitnessId;
 pub(super) struct Deduplicator {
     rewrite: HashMap<WitnessId, WitnessId>,
     seen: HashMap<AluKey, WitnessId>,
+    /// Witness IDs referenced by ops already emitted. A duplicate whose output is one of these
+    /// (a slot shared through `connect` with an earlier op, e.g. a public input) cannot be
+    /// rewritten away: the earlier op would keep pointing at the removed ID.
+    referenced: hashbrown::HashSet<WitnessId>,
 }
 
 impl Deduplicator {
@@ -21,6 +25,7 @@ impl Deduplicator {
         Self {
             rewrite: HashMap::new(),
             seen: HashMap::new(),
+            referenced: hashbrown::HashSet::new(),
         }
     }
 
@@ -36,16 +41,54 @@ impl Deduplicator {
 
             if let Some((dup_out, canonical)) = self.detect_duplicate(&op) {
                 let root = canonical.resolve(&self.rewrite);
-                if dup_out != root {
-                    self.rewrite.insert(dup_out, root);
+                if dup_out == root {
+                    continue;
                 }
-                continue;
+                if !self.referenced.contains(&dup_out) {
+                    self.rewrite.insert(dup_out, root);
+                    continue;
+                }
+                // `dup_out` is already used by an emitted op: keep this op so the equality
+                // between the shared slot and the canonical value stays an emitted relation.
             }
 
+            self.note_references(&op);
             result.push(op);
         }
 
         (result, self.rewrite)
+    }
+
+    fn note_references<F: Field>(&mut self, op: &Op<F>) {
+        match op {
+            Op::Const { out, .. } | Op::Public { out, .. } => {
+                self.referenced.insert(*out);
+            }
+            Op::Alu {
+                a,
+                b,
+                c,
+                out,
+                intermediate_out,
+                ..
+            } => {
+                self.referenced.extend([*a, *b, *out]);
+                self.referenced.extend(c.iter().copied());
+                self.referenced.extend(intermediate_out.iter().copied());
+            }
+            Op::Hint {
+                inputs, outputs, ..
+            } => {
+                self.referenced.extend(inputs.iter().copied());
+                self.referenced.extend(outputs.iter().copied());
+            }
+            Op::NonPrimitiveOpWithExecutor {
+                inputs, outputs, ..
+            } => {
+                self.referenced.extend(inputs.iter().flatten().copied());
+                self.referenced.extend(outputs.iter().flatten().copied());
+            }
+        }
     }
 
     /// Returns `Some((duplicate_out, canonical_out))` when `op` duplicates an earlier ALU.
